@@ -945,7 +945,8 @@ class Unit:
 
     def apply_edits(self, src, s_off, e_off, edits, rel):
         # sort; inserts at same offset ordered by prio
-        edits = sorted(edits, key=lambda e: (e.start, 0 if e.start == e.end else 1, e.prio))
+        # at one offset: insertions first (by prio), then replacements, the longest first (an outline swallows the R2 rename of its first token)
+        edits = sorted(edits, key=lambda e: (e.start, 0 if e.start == e.end else 1, e.prio if e.start == e.end else 0, -(e.end - e.start), e.prio))
         pieces = []
         pos = s_off
         for e in edits:
